@@ -11,6 +11,7 @@
 #include "scen_c06.h"
 #include "scen_c01.h"
 #include "scen_c13.h"
+#include "scen_c04.h"
 
 int main(int argc, char **argv) {
     if (argc < 5) { fprintf(stderr, "usage: tpmdrv Cxx seed tier trace [extra]\n"); return 2; }
@@ -35,6 +36,7 @@ int main(int argc, char **argv) {
     else if (!strcmp(prop, "C06")) scen_c06(thorough ? 12 : 3, 30, thorough ? 4000 : 350);
     else if (!strcmp(prop, "C01")) scen_c01(thorough ? 40 : 5, 25, thorough ? 1500 : 400);
     else if (!strcmp(prop, "C13")) scen_c13(thorough ? 2500 : 250, thorough ? 3 : 1);
+    else if (!strcmp(prop, "C04")) scen_c04(thorough ? 60 : 6, thorough ? 400 : 150);
     else { fprintf(stderr, "no scenario for %s\n", prop); return 2; }
     TPMLIB_Terminate();
     tr("end cmds=%ld ok=%ld faults=%ld", g_n_cmds, g_n_ok, g_fault_fired);
